@@ -527,6 +527,22 @@ def glob_argv(globs):
     return out
 
 
+ANCHORED_GLOB_LISTS = [["sub/*.lua"], ["*.lua", "!gen/*.lua"], ["sub/deep/*.lua", "gen/out/*.luau"], ["!sub/deep/*.lua", "*.lua"], ["gen/*.lua", "!gen/g.lua"]]
+
+
+def fam_anchored_globs(tier):
+    """-g patterns with a directory part are relative to the working directory, however the arguments are spelled"""
+    cases = []
+    for gi, globs in enumerate(ANCHORED_GLOB_LISTS):
+        for ai, targets in enumerate((["."], [ABS], ["sub", "gen"], [ABS + "/sub", ABS + "/gen"], ["./sub", "a.lua"], [ABS + "/gen/out", "sub/deep"])):
+            for r in (False, True):
+                if tier == "quick" and r and (gi + ai) % 2:
+                    continue
+                argv = (["--respect-ignores"] if r else []) + glob_argv(globs) + ["--"] + targets
+                cases.append(mk_case("anchored-globs", f"anchored:{gi}:{ai}:{int(r)}", T0, argv))
+    return cases
+
+
 def fam_grid(tier):
     cases = []
     n = 0
@@ -773,7 +789,7 @@ def links_and_dot_names_leg(acc):
 
 
 def build_cases(tier, seed):
-    pinned = fam_grid(tier) + fam_twice(tier) + fam_own_dir_shadow(tier) + fam_unspecified(tier)
+    pinned = fam_grid(tier) + fam_anchored_globs(tier) + fam_twice(tier) + fam_own_dir_shadow(tier) + fam_unspecified(tier)
     rng = clilib.Rng(seed)
     n = 200 if tier == "quick" else 8000
     seeded = [seeded_case(rng, i) for i in range(n)]
